@@ -183,6 +183,34 @@ func (e *Exec) onMapUpdate(fr *Frame, st *State, x *ssa.MapUpdate) {
 	if c == nil || len(c.OnMapUpdates) == 0 {
 		return
 	}
+	mt, ok := x.Map.Type().Underlying().(*types.Map)
+	if !ok {
+		return
+	}
+	if pm, isParam := x.Map.(*ssa.Parameter); isParam {
+		// a map handed in as a parameter: clauses name the parameter ($owner is the map itself)
+		for i, om := range c.OnMapUpdates {
+			if om.Field != pm.Name() {
+				continue
+			}
+			m := e.term(fr, st, x.Map)
+			k := e.term(fr, st, x.Key)
+			en := e.newEnv(fr, st, e.entry)
+			en.point = x
+			en.vars["$key"] = ev{k, mt.Key()}
+			en.vars["$value"] = ev{e.val(fr, x.Value), mt.Elem()}
+			en.vars["$was"] = ev{e.mapValue(st, m, mt, k), mt.Elem()}
+			en.vars["$had"] = ev{e.mapHas(st, m, mt, k), types.Typ[types.Bool]}
+			en.vars["$owner"] = ev{m, x.Map.Type()}
+			lbl := om.Label
+			if lbl == "" {
+				lbl = fmt.Sprint(i + 1)
+			}
+			e.clauseUsed["mapupd:"+om.Field+":"+lbl]++
+			e.oblige(st, "on-map-update", om.Field+":"+lbl, e.evalClause(en, &Clause{Text: om.Text, Expr: om.Expr}), e.posOf(x))
+		}
+		return
+	}
 	ld, ok := x.Map.(*ssa.UnOp)
 	if !ok {
 		return
@@ -196,10 +224,6 @@ func (e *Exec) onMapUpdate(fr *Frame, st *State, x *ssa.MapUpdate) {
 		return
 	}
 	fname := stt.s.Field(fa.Field).Name()
-	mt, ok := x.Map.Type().Underlying().(*types.Map)
-	if !ok {
-		return
-	}
 	ord := mapUpdateOrdinal(fr.fn, x, fname)
 	for i, om := range c.OnMapUpdates {
 		of := om.Field
